@@ -9,7 +9,7 @@ SRC=/tmp/seed_$P/$V
 WT=/tmp/vs_${P}_$V
 OUT=/verif/seeded/$P-$V
 rm -rf $WT; git -C /repo worktree prune; git -C /repo worktree add -q --detach $WT HEAD || exit 3
-dest=$(grep -m1 -o 'Copy this file to: *[^ ]*' $SRC/demo_test.go | awk '{print $NF}' | sed 's#^<repo>/##;s#^<checkout>/##')
+dest=$(grep -m1 -oE 'Copy this file to:? *[^ ]*' $SRC/demo_test.go | awk '{print $NF}' | sed 's#^<repo>/##;s#^<checkout>/##')
 runpat=$(grep -m1 -o "\-run '[^']*'" $SRC/demo_test.go | sed "s/-run '//;s/'//")
 pkgdir=$(dirname $dest)
 log=$SRC/verify.log; : > $log
